@@ -10,11 +10,11 @@ import pipeline
 PROPS = ["PropC03a", "PropC03b", "PropC03c"]
 
 
-def cfg(depth, prefixes, emit, props=()):
+def cfg(depth, prefixes, emit, props=(), walk=0):
     return dict(spec="Spec", view="View",
                 constants={"MaxDepth": depth, "UsePrefixes": tla_set(prefixes),
-                           "Emit": "TRUE" if emit else "FALSE"},
-                properties=list(props))
+                           "Emit": json.dumps(emit), "WalkLen": walk},
+                properties=list(props), invariants=[])
 
 
 def run(tier, seed):
@@ -22,14 +22,14 @@ def run(tier, seed):
     pfx = ["ex", "dn", ""]
     # (A) exhaustive, all interleavings
     dA = 4 if quick else 5
-    A = tlcrun.run_mc("C03/A", "MC_C03", cfg(dA, pfx, False, PROPS), workers=16,
+    A = tlcrun.run_mc("C03/A", "MC_C03", cfg(dA, pfx, "no", PROPS), workers=16,
                       timeout=3000, heap="24g")
     if A["errors"] or not A["complete"]:
         raise MachineryError("model-level check (A) of MC_C03 did not pass: %s\n%s"
                              % (A["errors"][:3], A["raw_tail"][-1500:]))
     # (B) every transition of the (smaller) model, printed by TLC
     dB = 3 if quick else 4
-    B = tlcrun.run_mc("C03/B", "MC_C03", cfg(dB, pfx, True), workers=1, timeout=3000, heap="8g")
+    B = tlcrun.run_mc("C03/B", "MC_C03", cfg(dB, pfx, "all"), workers=1, timeout=3000, heap="8g")
     if B["errors"] or not B["complete"]:
         raise MachineryError("behaviour generation (B) failed: %s" % B["errors"][:3])
     behaviours = [(h, len(h)) for h in B["tr"]]
@@ -37,11 +37,11 @@ def run(tier, seed):
     dS = 10 if quick else 14
     nS = 300 if quick else 3000
     pfxS = ["ex", "dn", "", "ex_1", "foo"]
-    S = tlcrun.run_mc("C03/S", "MC_C03", cfg(dS, pfxS, True), workers=1, timeout=1200,
+    S = tlcrun.run_mc("C03/S", "MC_C03", cfg(dS, pfxS, "walk", walk=dS), workers=1, timeout=1200,
                       simulate="num=%d" % nS, seed=seed + 1, heap="4g")
-    walks = [h for h in S["tr"] if len(h) == dS]
+    walks = tlcrun.pick_walks(S["tr"], seed)
     behaviours += [(h, 1) for h in walks]
-    R = pipeline.replay_and_validate("C03/C", "C03", behaviours)
+    R = pipeline.replay_and_validate("C03/C", "docbun", behaviours)
     ops = {}
     for h, f in behaviours:
         ops[h[-1]["op"]] = ops.get(h[-1]["op"], 0) + 1
@@ -63,12 +63,12 @@ def run(tier, seed):
             "clause_nonvacuous_traces": R["nonvacuous"],
             "samples": [{"hist": R["sample"]["hist"], "last_step": R["sample"]["steps"][-1]}],
             "timing": {"A_s": A["wall_s"], "B_s": B["wall_s"], "drive_s": R["t_drive"],
-                       "trace_s": R["t_trace"]},
+                       "trace_s": R["t_trace"], "S_s": S["wall_s"]},
         },
         "assumptions": ["TLC; harness/project.py + vocab.py (projection through the public API)",
                         "C03 discipline: a scope's default namespace is never re-bound"],
     }
-    return {"fails": R["fails"], "init": "C03", "evidence": ev}
+    return {"fails": R["fails"], "init": "docbun", "evidence": ev}
 
 
 def replay(path):
